@@ -1,9 +1,11 @@
 /-
 Executable model of `reamber/algorithms/osu/hitsound_copy.py` (as it is now in the source, i.e. after the
-D19a/D19b repairs), of `OsuMap.reset_samples` and of the parts of pandas it uses, over lists of rows.
+D19a/D19b/D19c repairs), of `OsuMap.reset_samples` and of the parts of pandas it uses, over lists of rows.
 
   * a chart is (hits, holds, event samples); a note row carries the osu sound fields;
-  * file names are lists of code points (`File`), `";"` is 59;
+  * file names are lists of code points (`File`); the names of a volume group are aggregated as a list
+    (`"hitsound_file": list`) — the `";".join` / `.split(";")` of the code before D19c survives only in the
+    hand-written variant `copyWithJoin` at the end of this file, kept for the counterexample;
   * `sort_values("offset")` is numpy's quicksort — not stable for > 16 rows — so the model is parameterised by
     the sorting permutations `σs` (source rows) and `σt` (target rows) that pandas chose; the theorems hold
     for every permutation;
@@ -25,7 +27,7 @@ abbrev File := List Nat
 def hsClap : Nat := 2
 def hsFinish : Nat := 4
 def hsWhistle : Nat := 8
-/-- the separator of `";".join` / `.split(";")` -/
+/-- `;` — the separator of `";".join` / `.split(";")` in the code before the D19c repair (variant below) -/
 def sep : Nat := 59
 /-- what `reset_samples` writes: `OsuSampleSet.AUTO`, `custom_set=0`, `hitsound_file=""` -/
 def resetSet : Int := 0
@@ -105,7 +107,7 @@ def dedup {α} [DecidableEq α] : List α → List α
 def keysRat (xs : List Rat) : List Rat := isort (fun a b => decide (a ≤ b)) (dedup xs)
 def keysInt (xs : List Int) : List Int := isort (fun a b => decide (a ≤ b)) (dedup xs)
 
-/-! ### `";".join` and `.split(";")` -/
+/-! ### `";".join` and `.split(";")` — only used by the pre-D19c variant `copyWithJoin` -/
 
 def joinSep (s : Nat) : List File → File
   | [] => []
@@ -120,11 +122,12 @@ def splitSep (s : Nat) : File → List File
       | [] => [[c]]
       | p :: ps => (c :: p) :: ps
 
-/-! ### the volume groups of one offset group (`groupby("volume").agg(join, sum, sum, sum)`) -/
+/-! ### the volume groups of one offset group (`groupby("volume").agg(list, sum, sum, sum)`) -/
 
 structure VGroup where
   volume : Int
-  joined : File
+  /-- `"hitsound_file": list` — the names of the group's rows, in row order -/
+  names : List File
   clapSum : Nat
   finSum : Nat
   whiSum : Nat
@@ -132,7 +135,7 @@ deriving Repr
 
 def mkVGroup (rows : List SRow) (v : Int) : VGroup :=
   let g := rows.filter (fun r => r.volume == v)
-  ⟨v, joinSep sep (g.map (·.file)), (g.map (·.clap)).sum, (g.map (·.fin)).sum, (g.map (·.whi)).sum⟩
+  ⟨v, g.map (·.file), (g.map (·.clap)).sum, (g.map (·.fin)).sum, (g.map (·.whi)).sum⟩
 
 def volGroups (rows : List SRow) : List VGroup :=
   (keysInt (rows.map (·.volume))).map (mkVGroup rows)
@@ -174,7 +177,8 @@ def filesLoop (t : Rat) (vol : Int) : List File → List Nat → List (Nat × Pa
     let r := filesLoop t vol fs rest
     ((i, .file f vol) :: r.1, r.2.1, r.2.2)
 
-def groupFiles (g : VGroup) : List File := (splitSep sep g.joined).filter (fun f => f.length > 0)
+/-- `[file for file in v_group["hitsound_file"] if len(file) > 0]` -/
+def groupFiles (g : VGroup) : List File := g.names.filter (fun f => f.length > 0)
 
 /-- one iteration of `for _, v_group in v_groups.iterrows()` -/
 def groupStep (t : Rat) (g : VGroup) (slots : List Nat) : List (Nat × Payload) × List Ev × List Nat :=
@@ -234,5 +238,35 @@ def stableArgsort (xs : List Rat) : List Nat :=
 def copy (src tgt : Chart) : Chart :=
   copyWith (stableArgsort (((concatNotes src).filter active).map (·.offset)))
            (stableArgsort ((concatNotes tgt).map (·.offset))) src tgt
+
+/-! ### the code before the D19c repair, hand-written: names joined with `;` and split again
+
+Only the aggregation differs; everything else is shared with the model above. Kept so that
+`semicolon_counterexample` can state what the repaired code no longer does. -/
+
+/-- `";".join` per group, then `.split(";")`: what `v_group["hitsound_file"]` used to be iterated as -/
+def joinSplit (g : VGroup) : VGroup := { g with names := splitSep sep (joinSep sep g.names) }
+
+def keyStepJoin (rows : List SRow) (offs : List Rat) (t : Rat) : List (Nat × Payload) × List Ev :=
+  groupsLoop t ((volGroups (rows.filter (fun r => r.offset == t))).map joinSplit) (slotsFrom 0 t offs)
+
+def keysLoopJoin (rows : List SRow) (offs : List Rat) : List Rat → List Note × List Ev → List Note × List Ev
+  | [], st => st
+  | t :: ts, st =>
+    let r := keyStepJoin rows offs t
+    keysLoopJoin rows offs ts (applyWrites st.1 r.1, st.2 ++ r.2)
+
+def copyWithJoin (σs σt : List Nat) (src tgt : Chart) : Chart :=
+  let rows := srcRows σs src
+  let df0 := gather (concatNotes (resetSamples tgt)) σt
+  let offs := df0.map (·.offset)
+  let r := keysLoopJoin rows offs (keysRat (rows.map (·.offset))) (df0, [])
+  { hits := (r.1.filter (fun n => n.length.isNone)),
+    holds := r.1.filter (fun n => n.length.isSome),
+    samples := r.2 }
+
+def copyJoin (src tgt : Chart) : Chart :=
+  copyWithJoin (stableArgsort (((concatNotes src).filter active).map (·.offset)))
+               (stableArgsort ((concatNotes tgt).map (·.offset))) src tgt
 
 end Reamber.Hitsound
